@@ -962,7 +962,7 @@ func genCliMsg(p *prng, thorough bool, w *bufio.Writer) {
 	if thorough {
 		reps = 6
 	}
-	for rep := 0; rep < reps; rep++ {
+	for rep := 0; rep < 4*reps; rep++ {
 		for _, sh := range shapes {
 			q := p.fork()
 			s := newScn(w, q, 3, 100)
@@ -975,7 +975,19 @@ func genCliMsg(p *prng, thorough bool, w *bufio.Writer) {
 			}
 			s.note("msg %s %d wf=%v shape=%s", s.id, sb, sh.wf, sh.name)
 			block := s.enc.block(sh.fields)
-			s.frame(frHeaderBlock(sb, block, true, nil, -1))
+			if rep/2%2 == 0 {
+				s.frame(frHeaderBlock(sb, block, true, nil, -1))
+			} else {
+				// the same header list on a response with a body: the stream ends on a DATA frame
+				s.frame(frHeaderBlock(sb, block, false, nil, -1))
+				body := []byte("ok")
+				for _, f := range sh.fields {
+					if f.k == "content-length" && f.v == "0" {
+						body = nil
+					}
+				}
+				s.frame(fr(0, 1, sb, body))
+			}
 			delete(s.open, sb)
 			if rep%2 == 0 {
 				s.frame(s.resp(sa, "200", ok, nil))
